@@ -25,7 +25,9 @@ RULE = ("Programs of 3-14 lines decoded from a Hypothesis-drawn genome: DATA sta
         "line, after and before other statements, two on a line, behind REM or ' (hidden), next to "
         "string literals containing ':DATA'; items: quoted strings (commas, colons, blanks inside), "
         "unquoted strings with inner/leading/trailing blanks, integers, dyadic decimals, &H and E "
-        "forms, empty items; READ lists of 1-4 targets of type $ % ! #; RESTORE, RESTORE n with n a "
+        "forms, empty items, a last item whose quote is closed only by the end of the line; lines "
+        "ending inside a string literal (Z$=\"x, IF .. THEN PRINT \"x) and comments with an odd "
+        "number of quotes between the data pointer and the next DATA; READ lists of 1-4 targets of type $ % ! #; RESTORE, RESTORE n with n a "
         "DATA line, a line before one, the last line, a missing line.  Run under ON ERROR GOTO with "
         "RESUME NEXT, or untrapped (stops at the first error).  Non-trivial: at least two visible "
         "DATA statements on different lines and an executed RESTORE, or an empty item or a quoted "
@@ -36,7 +38,8 @@ ASSUMPTIONS = [
     "the value left in the target of a READ that raised is not asserted",
     "numeric items are integers or dyadic decimals that are never halves, so conversion to the "
     "target type is exact or rounds unambiguously",
-    "blanks inside numeric items, unterminated quotes, text after a closing quote are not generated",
+    "blanks inside numeric items, text after a closing quote and trailing blanks after an unclosed "
+    "quote are not generated",
 ]
 
 MAXSLOT = 60
@@ -47,9 +50,14 @@ MAXSLOT = 60
 #   ['data', [item...]]     item = [kind, text, padleft, padright]   kind: q u n e
 #   ['read', [[type, slot]...]]    ['restore', n|None]    ['let']    ['strlit', text]
 #   ['rem', style, text]   style: 'REM' or "'" -- hides the rest of the line
+#   ['open', form, text]   Z$="text  (no closing quote; last statement of the line)
+#   item kind 'o': "text without closing quote (last item of the last statement of the line)
 
 def render_item(it):
     kind, text, pl, pr = it
+    if kind == 'o':
+        # quoted item closed only by the end of the line (last item of the last statement)
+        return ' ' * pl + '"' + text
     body = '"%s"' % text if kind == 'q' else text
     return ' ' * pl + body + ' ' * pr
 
@@ -67,6 +75,9 @@ def render_stmt(stm, seq):
         return 'X=X+1'
     if k == 'strlit':
         return 'Z$="%s"' % stm[1]
+    if k == 'open':
+        # a string literal that only the end of the line closes (last statement of its line)
+        return {'let': 'Z$="%s', 'cat': 'Z$=Z$+"%s', 'if': 'IF X=-9 THEN PRINT "%s'}[stm[1]] % stm[2]
     if k == 'rem':
         return stm[1] + ' ' + stm[2] if stm[1] == 'REM' else "' " + stm[2]
     raise ValueError(stm)
@@ -228,6 +239,13 @@ def check_case(case):
     route = case['route']
     res.label('route.' + route)
     res.label('data-lines.%d' % min(info['data-lines'], 4))
+    flat = [stm for _, sts in case['lines'] for stm in sts]
+    if any(stm[0] == 'open' for stm in flat):
+        res.label('line-ends-in-open-string')
+    if any(stm[0] == 'data' and stm[1] and stm[1][-1][0] == 'o' for stm in flat):
+        res.label('data-ends-in-open-quote')
+    if any(stm[0] == 'rem' and stm[2].count('"') % 2 for stm in flat):
+        res.label('comment-with-odd-quotes')
     with harness.Sess(budget=5000) as s:
         o = s.execute('\n'.join(text) + '\nRUN')
         where = '\n'.join(text)
@@ -321,7 +339,10 @@ QUOTED = ['a,b', 'x:y', ' lead', 'trail ', '', 'q', 'x, y: z', 'DATA 1', 'z z', 
 UNQUOTED = ['xy', 'x y', 'Zw', 'q  r', 'w', '7up', 'xyz w q', 'Wx', 'k2', 'y-z']
 INTS = ['0', '1', '7', '-3', '12', '255', '-32768', '32767', '100', '+5', '&H10', '1E2']
 DECS = ['1.25', '-0.75', '.125', '2.75', '100.25', '-.25', '3.0', '12.375']
-REMTEXT = ['x:DATA 91,92', 'DATA 93', 'note', ':DATA "h"']
+REMTEXT = ['x:DATA 91,92', 'DATA 93', 'note', ':DATA "h"', '5.25" disk', 'say "hi', 'odd"a"b":DATA 98',
+           '":DATA 99']
+OPENTEXT = ['start', 'x:DATA 97', '', 'a,b', ':DATA 96,q', 'REM x']          # no quote inside
+OPENITEM = ['abc', 'x:y,z', 'tail:DATA 90', 'a,b', '', 'q r']
 STRLIT = ['y:DATA 94', 'DATA 95,96', 'plain']
 
 
@@ -373,12 +394,35 @@ def build(data, route):
         num = g.take(3) == 0
         return ['data', [item(num) for _ in range(cnt)]]
 
+    def open_stmt():
+        return ['open', g.pick(['let', 'cat', 'if', 'let']), g.pick(OPENTEXT)]
+
+    def open_end(st_):
+        """Now and then let the line end inside a string literal: an unclosed last DATA item,
+        or a trailing statement with an unclosed quote."""
+        if st_ and st_[-1][0] == 'rem':
+            return st_
+        k = g.take(6)
+        if k == 0 and st_ and st_[-1][0] == 'data':
+            st_[-1][1].append(['o', g.pick(OPENITEM), g.pick([0, 1]), 0])
+        elif k == 1:
+            st_.append(open_stmt())
+        return st_
+
     # pass 1: the visible DATA statements of every line (READs may precede them in the text)
     datas = {}
     for ln, role in zip(linenos, roles):
         if role == 'data':
             datas[ln] = [data_stmt()] + ([data_stmt()] if g.take(4) == 0 else [])
-        elif role in ('mixed', 'readdata'):
+            if g.take(5) == 0:
+                datas[ln] = open_end(datas[ln])
+                if datas[ln][-1][0] == 'open':
+                    datas[ln].pop()
+        elif role == 'readdata':
+            datas[ln] = [data_stmt()]
+            if g.take(5) == 0 and datas[ln][-1][1] is not None:
+                datas[ln][-1][1].append(['o', g.pick(OPENITEM), g.pick([0, 1]), 0])
+        elif role == 'mixed':
             datas[ln] = [data_stmt()]
     items = []
     for ln in linenos:
@@ -400,13 +444,13 @@ def build(data, route):
             wild = g.take(8) == 0
             if kind == 'n' and not wild:
                 t = g.pick(['!', '%', '#', '!', '$', '%'])
-            elif kind in ('q', 'u') and not wild:
+            elif kind in ('q', 'u', 'o') and not wild:
                 t = '$'
             else:
                 t = g.pick(['$', '!', '$', '%', '#', '$', '!', '%'])
             tg.append([t, state['slot']])
             state['slot'] += 1
-            if kind in ('q', 'u') and t != '$':
+            if kind in ('q', 'u', 'o') and t != '$':
                 state['lost'] = True
                 break
             state['ptr'] += 1
@@ -451,20 +495,29 @@ def build(data, route):
             st_ = list(datas[ln])
             if g.take(4) == 0:
                 st_.insert(0, ['let'])
-            if g.take(4) == 0:
+            ends_open = bool(st_[-1][1]) and st_[-1][1][-1][0] == 'o'
+            if g.take(4) == 0 and not ends_open:
                 st_.append(['let'])
+            if not ends_open and g.take(6) == 0:
+                st_.append(open_stmt())
         elif role == 'read':
             st_ = reads()
             if g.take(4) == 0:
                 st_ += reads()
+            if g.take(5) == 0:
+                st_.append(open_stmt())
         elif role == 'restore':
             st_ = [restore_stmt()]
             if g.take(2):
                 st_.append(read_stmt())
+            if g.take(5) == 0:
+                st_.append(open_stmt())
         elif role == 'mixed':
             st_ = [g.pick([['let'], ['strlit', g.pick(STRLIT)]])] + datas[ln] + reads()
             if g.take(2):
                 st_.append(['rem', g.pick(['REM', "'"]), g.pick(REMTEXT)])
+            elif g.take(4) == 0:
+                st_.append(open_stmt())
         elif role == 'readdata':
             st_ = reads() + datas[ln]
         else:
@@ -491,6 +544,15 @@ def units(tier):
 
 
 REGRESSIONS = [
+    # lines that end inside a string literal, quotes in comments, unclosed last DATA item
+    {'lines': [[10, [['open', 'let', 'start']]], [20, [['let'], ['rem', 'REM', '5.25" disk']]],
+               [30, [['data', [['n', '5', 0, 0], ['o', 'abc', 0, 0]]]]],
+               [35, [['let'], ['rem', "'", 'say "hi']]],
+               [40, [['data', [['n', '7', 0, 0], ['o', 'x:y,z', 1, 0]]]]],
+               [50, [['read', [['!', 0], ['$', 1], ['%', 2], ['$', 3]]]]],
+               [60, [['restore', 35], ['read', [['#', 4]]], ['open', 'if', 'x:DATA 97']]],
+               [70, [['data', [['n', '9', 0, 0]]]]],
+               [80, [['read', [['$', 5], ['!', 6]]]]]], 'route': 'trap'},
     # fixed e13220fb: offending item is the first of its DATA statement -> previous DATA line / no line
     {'lines': [[10, [['read', [['$', 0], ['!', 1]]]]], [20, [['data', [['u', 'x', 0, 0]]]]],
                [30, [['data', [['u', 'y', 0, 0]]]]]], 'route': 'stop'},
@@ -524,4 +586,8 @@ KILLS = [
     "interpreter.py restore_: RESTORE n positions one byte into line n -> read.value.string, "
     "syntax-error.line, restore.missing-line",
     "interpreter.py restore_: missing line silently ignored -> restore.missing-line",
+    "codestream.py skip_to: 'literal' no longer reset at the end of a line (seeded change; needs a "
+    "line with an odd number of quotes between the data pointer and the next DATA) -> "
+    "read.value.*, read.unexpected-error, out-of-data.*, syntax-error.*, restore.missing-line "
+    "(regression with Z$=\"start / REM 5.25\" disk / DATA 5,\"abc and the random unit)",
 ]
